@@ -66,7 +66,7 @@ def dictSet {α β : Type} [BEq α] : List (α × β) → α → β → List (α
   | (k', v') :: r, k, v => if k' == k then (k', v) :: r else (k', v') :: dictSet r k v
 
 def parseComments : Nat → Str → List (Str × Str) → Except Err (List (Str × Str) × Str)
-  | 0, _, _ => .error .formatBf3
+  | 0, _, _ => .error .outOfFuel     -- unreachable: fuel = text length + 1 (C14: `parseText_total`)
   | fuel+1, s, acc =>
     let (line, rest) := readLine s
     if line = ['\n'] then .ok (acc, rest)
